@@ -4,8 +4,8 @@ CONSTANTS
   JAllowFallsThrough = FALSE
   TBlockInverted = FALSE
   TNo172 = FALSE
-  Devs = {"ipv6-internal-destination-routed", "unsupported-allow-item-raises"}
+  Devs = {"names-never-resolved", "list-items-compared-as-typed"}
   Tier = "quick"
-  Impl = "java"
+  Impl = "ts"
 SPECIFICATION Spec
 CHECK_DEADLOCK FALSE
